@@ -40,6 +40,37 @@ Definition mk_policy (guards : list (string * guard)) (effects : list (string * 
 Definition restrict (names : list string) (funs : funtab) : funtab :=
   filter (fun p => existsb (String.eqb (fst p)) names) funs.
 
+(** Functions reachable from a list of entry points through calls the policy resolves to
+    analysed functions (computed, so that a new helper method is picked up without editing a
+    list; its accesses must still be known to the policy). *)
+Fixpoint call_targets (pol : policy) (s : stmt) : list string :=
+  match s with
+  | Call loc meth => match effect_of pol loc meth with Some (ECall fn) => [fn] | _ => [] end
+  | Seq a b | Branch a b => call_targets pol a ++ call_targets pol b
+  | Loop a => call_targets pol a
+  | _ => []
+  end.
+
+Definition mem_str (x : string) (l : list string) : bool := existsb (String.eqb x) l.
+
+Fixpoint reach (pol : policy) (funs : funtab) (fuel : nat) (todo seen : list string) : list string :=
+  match fuel with
+  | O => seen
+  | S f =>
+      match todo with
+      | [] => seen
+      | fn :: rest =>
+          if mem_str fn seen then reach pol funs f rest seen
+          else match lookup_fun funs fn with
+               | Some body => reach pol funs f (call_targets pol body ++ rest) (fn :: seen)
+               | None => reach pol funs f rest (fn :: seen)
+               end
+      end
+  end.
+
+Definition reachable_funs (pol : policy) (funs : funtab) (entries : list string) : funtab :=
+  restrict (reach pol funs 2000 entries []) funs.
+
 (** * C04: queries, schema reads and the LRU cache used concurrently on one open index *)
 Definition policy_C04 : policy := mk_policy
   [ (* an Index is immutable after OpenIndex *)
